@@ -19,6 +19,10 @@ import RkVerif.Model.C07
 namespace RkVerif.C07
 open RkVerif
 
+/-- `linear_to_srgba8` is `pack4` of three `srgb8` channels and the clamped-below alpha (any scalar) -/
+theorem srgba8_channels_gen {α : Type} [CNum α] (rnd : α → Nat) (x y z w : α) :
+    linear_to_srgba8 rnd x y z w = pack4 (srgb8 rnd x) (srgb8 rnd y) (srgb8 rnd z) (cvt_uint32 rnd (max w 0)) := rfl
+
 /-- parameters of the field instance: FLT_MIN and the two library functions -/
 structure Ext (α : Type) where
   fmin : α
@@ -152,6 +156,31 @@ omit [IsStrictOrderedRing α] in
 /-- a rounding factor: `|d| ≤ u` ⇒ `|(1+d) - 1| ≤ u` -/
 theorem abs_one_add_sub_one {d u : α} (hd : |d| ≤ u) : |(1 + d) - 1| ≤ u := by
   simpa using hd
+
+/-- Common last step of the two rounded range theorems: `inner = w + lo` with `0 ≤ w ≤ (hi-lo)·c` (`c ≥ 1` collects the
+    rounding factors), then one more rounding `(1+d)`, `|d| ≤ u`; if `2(c-1) + (2c-1)u ≤ m` the result stays within
+    `m·M` of `[lo, hi]`. -/
+theorem margin_of_inner (w lo hi M c u m d : α) (hM : 0 ≤ M) (hc1 : 1 ≤ c) (hu : 0 ≤ u)
+    (hnum : 2 * (c - 1) + (2 * c - 1) * u ≤ m)
+    (hw0 : 0 ≤ w) (hw1 : w ≤ (hi - lo) * c) (hD2 : hi - lo ≤ 2 * M) (hlo : -M ≤ lo) (hhi : hi ≤ M) (hd : |d| ≤ u) :
+    lo - m * M ≤ (w + lo) * (1 + d) ∧ (w + lo) * (1 + d) ≤ hi + m * M := by
+  have hc0 : 0 ≤ c - 1 := sub_nonneg.mpr hc1
+  have hDc : (hi - lo) * (c - 1) ≤ 2 * M * (c - 1) := mul_le_mul_of_nonneg_right hD2 hc0
+  have e0 : (hi - lo) * c = (hi - lo) + (hi - lo) * (c - 1) := by ring
+  have hi2 : w + lo ≤ hi + 2 * M * (c - 1) := by linarith
+  have hMc : 0 ≤ 2 * M * (c - 1) := mul_nonneg (mul_nonneg (by norm_num) hM) hc0
+  have hia : |w + lo| ≤ M + 2 * M * (c - 1) := by
+    rw [abs_le]; constructor <;> linarith
+  have hK : 0 ≤ M + 2 * M * (c - 1) := by linarith
+  have hprod : |(w + lo) * d| ≤ (M + 2 * M * (c - 1)) * u := by
+    rw [abs_mul]; exact mul_le_mul hia hd (abs_nonneg _) hK
+  have bp := abs_le.mp hprod
+  have hMn : M * (2 * (c - 1) + (2 * c - 1) * u) ≤ M * m := mul_le_mul_of_nonneg_left hnum hM
+  have e1 : (w + lo) * (1 + d) = (w + lo) + (w + lo) * d := by ring
+  have e2 : M * (2 * (c - 1) + (2 * c - 1) * u) = 2 * M * (c - 1) + (M + 2 * M * (c - 1)) * u := by ring
+  have hKu : 0 ≤ (M + 2 * M * (c - 1)) * u := mul_nonneg hK hu
+  rw [e1]
+  constructor <;> linarith
 
 end
 
